@@ -477,7 +477,11 @@ int SQLITE3::Handle::query(const std::string& str, bloc::Tuple& args, bloc::Coll
         sqlite3_bind_text(stmt, i, v.literal()->c_str(), v.literal()->size(), SQLITE_STATIC);
         break;
       case Type::TABCHAR:
-        sqlite3_bind_blob(stmt, i, v.tabchar()->data(), v.tabchar()->size(), SQLITE_STATIC);
+        /* an empty bytes is an empty blob, not NULL (a null data pointer binds NULL) */
+        if (v.tabchar()->empty())
+          sqlite3_bind_zeroblob(stmt, i, 0);
+        else
+          sqlite3_bind_blob(stmt, i, v.tabchar()->data(), v.tabchar()->size(), SQLITE_STATIC);
         break;
       default:
         break;
@@ -546,7 +550,11 @@ int SQLITE3::Handle::exec(const std::string& str, bloc::Tuple& args)
         sqlite3_bind_text(stmt, i, v.literal()->c_str(), v.literal()->size(), SQLITE_STATIC);
         break;
       case Type::TABCHAR:
-        sqlite3_bind_blob(stmt, i, v.tabchar()->data(), v.tabchar()->size(), SQLITE_STATIC);
+        /* an empty bytes is an empty blob, not NULL (a null data pointer binds NULL) */
+        if (v.tabchar()->empty())
+          sqlite3_bind_zeroblob(stmt, i, 0);
+        else
+          sqlite3_bind_blob(stmt, i, v.tabchar()->data(), v.tabchar()->size(), SQLITE_STATIC);
         break;
       default:
         break;
@@ -609,7 +617,11 @@ int SQLITE3::Handle::bind(bloc::Tuple& args)
         sqlite3_bind_text(_stmt, i, v.literal()->c_str(), v.literal()->size(), SQLITE_STATIC);
         break;
       case Type::TABCHAR:
-        sqlite3_bind_blob(_stmt, i, v.tabchar()->data(), v.tabchar()->size(), SQLITE_STATIC);
+        /* an empty bytes is an empty blob, not NULL (a null data pointer binds NULL) */
+        if (v.tabchar()->empty())
+          sqlite3_bind_zeroblob(_stmt, i, 0);
+        else
+          sqlite3_bind_blob(_stmt, i, v.tabchar()->data(), v.tabchar()->size(), SQLITE_STATIC);
         break;
       default:
         break;
